@@ -98,8 +98,8 @@ def _run_op(op, label):
         raise ValueError(op)
 
 
-_TS = re.compile(r"16000\d+\.\d+")
-_UU = re.compile(r"00000000-0000-4000-8000-\d{12}")
+_TS = re.compile(r"\d{9,}\.\d+")
+_UU = re.compile(r"[0-9a-f]{8}-[0-9a-f]{4}-[0-9a-f]{4}-[0-9a-f]{4}-[0-9a-f]{12}")
 _GF = re.compile(r",? ?[\"']+gf_\w+[\"']+: [\"']*\d+[\"']*")
 
 
